@@ -282,6 +282,19 @@ def confirm_delivery(chk, bad, prop):
             chk.replay_files.append(path)
         else:
             os.remove(path)
+    # a matching item stays buffered whatever passes through between it and run-Finished (run-Started - which the real runner
+    # may emit AFTER the parser's errors -, ParsingFinished, brackets, a parser error under `skipped`)
+    for wrapper, first in (('repeat_skipped', 'ev bg 0 skipped r=-'), ('repeat_failed', 'ev parse_error')):
+        for mid in ('run_started', 'parsing_finished', 'feature_started', 'feature_finished', 'parse_error' if wrapper == 'repeat_skipped' else 'feature_started'):
+            path = os.path.join(d, '%s-repeat-kept-across-%s-%s.script' % (prop, wrapper, mid))
+            lines = ['mode events', 'wrapper %s' % wrapper, 'bg 1', 'own 1', first, 'ev %s' % mid, 'ev run_finished']
+            res, out = replay.run_script('\n'.join(lines) + '\n', path)
+            chk.replays += 1
+            if res is not None and res.get('inner_events') != 4:
+                deviations.append((path, res.get('inner_events'), 4))
+                chk.replay_files.append(path)
+            elif res is not None:
+                os.remove(path)
     # a custom filter selecting everything: the run-level events (run-Finished itself) are re-emitted too
     for n in (0, 1):
         path = os.path.join(d, '%s-repeat-all-%d.script' % (prop, n))
